@@ -645,9 +645,15 @@ func runCase(c config, seed uint64) result {
 		}
 	}()
 	hung := false
+	var pacing time.Duration // the caller's scripted pauses do not count as being stuck
+	for _, jp := range c.Jobs {
+		if jp.PaceUs >= 100000 {
+			pacing += time.Duration(jp.PaceUs) * time.Microsecond
+		}
+	}
 	select {
 	case <-callerDone:
-	case <-time.After(*hangAfter):
+	case <-time.After(*hangAfter + pacing):
 		hung = true
 	}
 	close(release) // the straggler may finish now
@@ -788,6 +794,108 @@ func runConc(r *rng.R) concResult {
 	return res
 }
 
+// faninResult is the outcome of the scripted wide fan-in: one job depending on n others, all of
+// them unfinished when it is submitted (they are held until its Enqueue has returned).
+type faninResult struct {
+	Kind        string   `json:"kind"`
+	Deps        int      `json:"deps"`
+	JRuns       int32    `json:"j_runs"`
+	DoneAtStart int32    `json:"deps_done_at_first_start"`
+	Returned    bool     `json:"wait_returned"`
+	WaitErr     []string `json:"wait_err"`
+}
+
+func runFanin(n int) faninResult {
+	curRec.Store(nil)
+	res := faninResult{Kind: "fanin", Deps: n, DoneAtStart: -1, WaitErr: []string{}}
+	s := scheduler.Config{Concurrency: 4}.New()
+	ctx := context.Background()
+	// group B (most of the dependencies) waits for a gate job that ends only when the fan-in job has
+	// started or a grace period has passed; group A runs freely. A fan-in job that starts while the
+	// gate is still held has not waited for all of its dependencies.
+	na := n / 2
+	if n > 65536 {
+		na = n%65536 + 100
+	}
+	gate := make(chan struct{})
+	gateA := make(chan struct{})
+	started := make(chan struct{})
+	var done, jruns, atStart int32
+	atStart = -1
+	deps := make([]*scheduler.ScheduledJob, 0, n)
+	finished := make(chan error, 1)
+	go func() {
+		// every dependency is unfinished when the fan-in job is submitted: group A is held by a gate job
+		// of its own that is released right after that Enqueue
+		ga := s.Enqueue(ctx, scheduler.Job{Run: func(context.Context) error { <-gateA; return nil }})
+		g := s.Enqueue(ctx, scheduler.Job{Run: func(context.Context) error { <-gate; return nil }})
+		work := func(context.Context) error { atomic.AddInt32(&done, 1); return nil }
+		for k := 0; k < n; k++ {
+			j := scheduler.Job{Run: work, Dependencies: []*scheduler.ScheduledJob{ga}}
+			if k >= na {
+				j.Dependencies = []*scheduler.ScheduledJob{g}
+			}
+			deps = append(deps, s.Enqueue(ctx, j))
+		}
+		s.Enqueue(ctx, scheduler.Job{Dependencies: deps, Run: func(context.Context) error {
+			if atomic.AddInt32(&jruns, 1) == 1 {
+				atomic.StoreInt32(&atStart, atomic.LoadInt32(&done))
+				close(started)
+			}
+			return nil
+		}})
+		time.Sleep(20 * time.Millisecond) // let the loop take the fan-in job in
+		close(gateA)
+		select {
+		case <-started:
+		case <-time.After(400 * time.Millisecond):
+		}
+		close(gate)
+		finished <- s.Wait(ctx)
+	}()
+	select {
+	case err := <-finished:
+		res.Returned = true
+		for _, e := range multierr.Errors(err) {
+			res.WaitErr = append(res.WaitErr, encErr(e))
+		}
+	case <-time.After(30 * time.Second):
+	}
+	time.Sleep(20 * time.Millisecond) // a second run of the fan-in job, if any, shows up now
+	res.JRuns = atomic.LoadInt32(&jruns)
+	res.DoneAtStart = atomic.LoadInt32(&atStart)
+	return res
+}
+
+// manyFailConfig is a scripted execution: ContinueOnError and n independent jobs that all fail,
+// each with an error value of its own.
+func manyFailConfig(idx, n int) config {
+	c := config{Case: idx, N: 4, CoE: true, ExtCancel: -1, Straggler: -1, Procs: 4, Shape: "many-failures", PreCancel: []int{}, FlushNs: 1000}
+	for k := 0; k < n; k++ {
+		c.Jobs = append(c.Jobs, jobPlan{Ctx: 0, Outcome: "err", Cancel: -1, WaitDone: -1, HoldUntil: -1, Deps: []int{}})
+	}
+	return c
+}
+
+// lateEnqueueConfig is a scripted execution: the first job fails (fail-fast), the caller learns
+// that the loop has processed the failure, stays quiet for pauseMs and only then submits the
+// remaining jobs and calls Wait.
+func lateEnqueueConfig(idx, pauseMs int) config {
+	c := config{Case: idx, N: 2, ExtCancel: -1, Straggler: -1, Procs: 4, Shape: "late-enqueue", PreCancel: []int{}, FlushNs: 1000}
+	for k := 0; k < 4; k++ {
+		jp := jobPlan{Ctx: 0, Outcome: "ok", Cancel: -1, WaitDone: -1, HoldUntil: -1, Deps: []int{}}
+		if k == 0 {
+			jp.Outcome = "err"
+		}
+		if k == 1 {
+			jp.WaitDone = 0
+			jp.PaceUs = pauseMs * 1000
+		}
+		c.Jobs = append(c.Jobs, jp)
+	}
+	return c
+}
+
 // curRec is the recorder of the execution in progress. The scheduler's hook variable is
 // written once, before any scheduler exists; which recorder receives the events is an
 // atomic pointer, so that goroutines of an earlier execution never race with the harness.
@@ -808,6 +916,9 @@ func main() {
 	only := flag.Int("only", -1, "run only this case index")
 	from := flag.Int("from", 0, "skip the cases before this index (continue a run that stopped after a stuck execution)")
 	backlog := flag.Int("backlog", 0, "after the random cases, one scripted execution with this many jobs submitted while both workers are busy")
+	fanin := flag.Int("fanin", 0, "a scripted execution (no hooks): one job depending on this many unfinished jobs")
+	manyFail := flag.Int("manyfail", 0, "a scripted execution: ContinueOnError and this many jobs that all fail")
+	lateEnq := flag.Int("lateenq", 0, "a scripted execution: the caller goes on submitting this many milliseconds after a fail-fast failure")
 	flag.Parse()
 	w := bufio.NewWriterSize(os.Stdout, 1<<20)
 	defer w.Flush()
@@ -833,6 +944,27 @@ func main() {
 		}
 	}
 	if *backlog > 0 && (*only < 0 || *only == *count) && *from <= *count {
-		enc.Encode(runCase(backlogConfig(*count, *backlog), 0))
+		res := runCase(backlogConfig(*count, *backlog), 0)
+		enc.Encode(res)
+		if res.Hang != "" {
+			return
+		}
+	}
+	if *lateEnq > 0 && (*only < 0 || *only == *count+1) && *from <= *count+1 {
+		res := runCase(lateEnqueueConfig(*count+1, *lateEnq), 0)
+		enc.Encode(res)
+		if res.Hang != "" {
+			return
+		}
+	}
+	if *manyFail > 0 && (*only < 0 || *only == *count+2) && *from <= *count+2 {
+		res := runCase(manyFailConfig(*count+2, *manyFail), 0)
+		enc.Encode(res)
+		if res.Hang != "" {
+			return
+		}
+	}
+	if *fanin > 0 && *only < 0 {
+		enc.Encode(runFanin(*fanin))
 	}
 }
